@@ -41,7 +41,16 @@ def _switch_facts(body, s, reaching, depth, _cache):
                 names |= set(v[6:].split("|"))
             else:
                 names.add(v)
-        subj = flow.resolve_place(body, src[1]["ops"][0])
+        op0 = src[1]["ops"][0]
+        # `match (a, b)`: the discriminant of `tuple.i` is the discriminant of the operand the tuple was built from
+        p0 = op0.get("p") if isinstance(op0, dict) else None
+        if p0 is not None:
+            pr = [e for e in p0["proj"] if e != "*"]
+            if pr and isinstance(pr[0], dict) and "f" in pr[0]:
+                q = paths._tuple_field_operand(body, {"l": p0["l"], "proj": [pr[0]]})
+                if q is not None and "p" in q:
+                    op0 = {"p": {"l": q["p"]["l"], "proj": list(q["p"]["proj"]) + pr[1:]}}
+        subj = flow.resolve_place(body, op0)
         facts.add(("enum", src[1]["enum"], frozenset(names), subj))
         # a stored decision (`let kind = classify(..); match kind { .. }` with a private enum): the value is one of `names`, so it was
         # built at one of the constructions of those variants - what holds at all of them holds here
@@ -200,7 +209,9 @@ def _back_edges(body):
 
 
 def _is_plain_enum(ty):
-    return ty.startswith(("s3s::", "s3s_fs::", "s3s_policy::", "s3s_aws::"))
+    """enums whose matched value is worth tracing back to where it was built: the workspace's own, and Option / Result (a stored
+    `let form = if cond { x.as_mut() } else { None }`)"""
+    return ty.startswith(("s3s::", "s3s_fs::", "s3s_policy::", "s3s_aws::", "core::option::Option<", "core::result::Result<"))
 
 
 GOOD_WRAPPERS = ("Some", "Ok", "Continue", "Ready")
@@ -223,19 +234,19 @@ def _wrapper_depth(proj):
 
 def _enum_def_sites(body, l, names, wrap=0, enum_ty=""):
     """blocks that construct the enum value found `wrap` layers (Some / Ok / Continue / Ready) inside local l with one of the variants
-    `names`; None when some definition is not a construction, a copy, a `?` / payload-preserving adaptor, or `.map(Variant)`"""
+    `names` - or, where the value comes out of a call, the block of that call (whatever variant it is, control passed there); None when some
+    definition is of another kind"""
     base = enum_ty.split("<")[0]
-    out = []
-    stack = [(l, wrap, 0)]
     seen = set()
-    while stack:
-        l2, w, dep = stack.pop()
+
+    def sites(l2, w, dep):
         if (l2, w) in seen:
-            continue
+            return []
         seen.add((l2, w))
         ds = body.defs().get(l2, [])
         if not ds or (1 <= l2 <= body.argc) or dep > 12:
             return None
+        out = []
         for df in ds:
             if df["kind"] == "mutarg" or df.get("proj"):
                 return None
@@ -246,7 +257,8 @@ def _enum_def_sites(body, l, names, wrap=0, enum_ty=""):
                         if rv["variant"] in names:
                             out.append(df["bi"])
                     elif rv["variant"] in GOOD_WRAPPERS and rv["ops"] and isinstance(rv["ops"][0], dict) and "p" in rv["ops"][0] and not rv["ops"][0]["p"]["proj"]:
-                        stack.append((rv["ops"][0]["p"]["l"], w - 1, dep + 1))
+                        r = sites(rv["ops"][0]["p"]["l"], w - 1, dep + 1)
+                        out += r if r is not None else [df["bi"]]
                     elif rv["variant"] in BAD_WRAPPERS:
                         pass        # carries no value of the enum
                     else:
@@ -256,7 +268,10 @@ def _enum_def_sites(body, l, names, wrap=0, enum_ty=""):
                     k = _wrapper_depth(flow.norm_proj(q["proj"]))
                     if k is None:
                         return None
-                    stack.append((q["l"], w + k, dep + 1))
+                    r = sites(q["l"], w + k, dep + 1)
+                    if r is None:
+                        return None
+                    out += r
                 else:
                     return None
             elif df["kind"] == "call":
@@ -266,17 +281,22 @@ def _enum_def_sites(body, l, names, wrap=0, enum_ty=""):
                 if d.endswith("::ops::try_trait::FromResidual::from_residual"):
                     continue        # the failure of an inner `?`: None / Err, no value of the enum
                 if (d.endswith("::ops::try_trait::Try::branch") or d in flow.PAYLOAD_PRESERVING) and isinstance(a0, dict) and "p" in a0 and not a0["p"]["proj"]:
-                    stack.append((a0["p"]["l"], w, dep + 1))
+                    r = sites(a0["p"]["l"], w, dep + 1)
+                    # the adaptor's input comes from outside this body (a field, a parameter): the adaptor call itself is where the value
+                    # enters
+                    out += r if r is not None else [df["bi"]]
                 elif d in ("core::option::Option::<T>::map", "core::result::Result::<T, E>::map") and w == 1 and len(t["args"]) == 2 and \
                         isinstance(t["args"][1], dict) and t["args"][1].get("c") == "fn" and str(t["args"][1].get("def", "")).startswith(base + "::"):
                     # `.map(Enum::Variant)`: whatever value comes out was built by that variant's constructor, here
                     if str(t["args"][1]["def"]).rsplit("::", 1)[-1] in names:
                         out.append(df["bi"])
                 else:
-                    return None
+                    # some other call produced the value: whichever variant it is, control passed this call
+                    out.append(df["bi"])
             else:
                 return None
-    return out
+        return out
+    return sites(l, wrap, 0)
 
 
 def enum_fact(facts, enum_suffix):
